@@ -219,6 +219,41 @@ fn e1_units(tier: Tier) -> Vec<Unit> {
             }
         }
     }));
+    units.push(Unit::new("calls/frame-over-code", 8, "every call form (BSR d:8, BSR d:16, JSR @ERn, JSR @aa:24, JSR @@aa:8) with the stack frame overlapping the call instruction's own bytes or its neighbours: SP = instruction address + k for every even k in -2..=len+6, upper byte {00,5a} x displacement / target sets x 8 code positions x K4 CCR: the instruction is the one fetched before the frame was stored", |ctx, chunk| {
+        let pc = POSITIONS[chunk as usize];
+        let forms: [(&str, u32); 5] = [("BSR d:8", 2), ("BSR d:16", 4), ("JSR @ERn", 2), ("JSR @aa:24", 4), ("JSR @@aa:8", 2)];
+        for (name, len) in forms {
+            let datas: Vec<u32> = match name {
+                "BSR d:8" => (0..256u32).step_by(2).collect(),
+                "BSR d:16" => d16_set().into_iter().filter(|d| d % 2 == 0).collect(),
+                "JSR @aa:24" => vec![0xffc200, 0x410200, 0x5ffffe, 0xffbf20],
+                "JSR @@aa:8" => vec![0x10, 0x80, 0xfc],
+                _ => vec![0],
+            };
+            let mut k: i32 = -2;
+            while k <= len as i32 + 6 {
+                for top in [0x00u32, 0x5a] {
+                    let sp = (pc.wrapping_add(k as u32) & M24) | (top << 24);
+                    for &d in datas.iter() {
+                        let mut f = Fields::default();
+                        f.data = d;
+                        f.ra = 3;
+                        let mut c = case_with(ctx, name, &f, pc);
+                        c.er[7] = sp;
+                        c.er[3] = 0x7700_0000 | 0x41_0300;
+                        if name == "JSR @@aa:8" {
+                            c.patch_l(d, 0x00ff_c200);
+                        }
+                        for &ccr in &K4 {
+                            c.ccr = ccr;
+                            ctx.run(&c);
+                        }
+                    }
+                }
+                k += 2;
+            }
+        }
+    }));
     units.push(Unit::new("RTS/T", 1, "24 stack pointers x return addresses (covering set) x frame upper byte {00,5a,ff} x K16 CCR", |ctx, _| {
         for &sp in sp_cov().iter() {
             for &ret in target_cov().iter() {
